@@ -34,6 +34,7 @@ class ReplayDivergence(Unsupported):
 
 SOLVER_TIMEOUT_MS = 60_000
 MAX_CONCRETIZE = 64
+UNBOUNDED_LIMIT = 10**6
 
 
 def zb(x):
@@ -275,6 +276,9 @@ class Ctx:
                 continue
             if not self.feasible():
                 raise PathAbort()
+            if tried == 0 and self._check(z3.Or(expr > UNBOUNDED_LIMIT, expr < -UNBOUNDED_LIMIT)):
+                # fail fast instead of enumerating 64 values at every concretisation point
+                raise Unsupported(f"concretisation of an unbounded term: {expr}")
             v = self.model.eval(expr, model_completion=True).as_long()
             tried += 1
             if tried > MAX_CONCRETIZE:
